@@ -5,6 +5,7 @@ import (
 	"net/netip"
 	"reflect"
 
+	"github.com/AdguardTeam/golibs/errors"
 	"github.com/AdguardTeam/golibs/timeutil"
 )
 
@@ -22,6 +23,16 @@ func validatePositive[T numberOrDuration](prop string, v T) (err error) {
 	rv := reflect.ValueOf(v)
 	if (rv.CanInt() && rv.Int() <= 0) || (rv.CanUint() && rv.Uint() == 0) {
 		return newNotPositiveError(prop, v)
+	}
+
+	return nil
+}
+
+// validatePrefixLen returns an error if v is not a valid prefix length for an
+// address of bits bits.
+func validatePrefixLen(prop string, v, bits int) (err error) {
+	if v <= 0 || v > bits {
+		return fmt.Errorf("%s: %w: must be between 1 and %d, got %d", prop, errors.ErrOutOfRange, bits, v)
 	}
 
 	return nil
